@@ -466,3 +466,5 @@ def run(chk, facts, tier):
     facts.load_crate("cedar_policy.lib")
     from rules import shared_namesake
     shared_namesake.check(chk, facts, "C03.NAMESAKE.mode", lambda n: "ValidationMode" in n, 9)
+    from rules import c03_disjoint
+    c03_disjoint.check(chk, facts)
